@@ -208,14 +208,19 @@ class EinSum(Module):
             arg_complex = [np.iscomplexobj(s.state) for i, s in enumerate(self.sig_in) if i != ar]
             ind_out = self.indices_in[ar]
 
-            op = ",".join(ind_in)+"->"+ind_out
+            # Indices only occurring in this argument are summed in the response, so their sensitivity is broadcasted
+            ind_avail = "".join(ind_in)
+            ind_red = "".join([c for c in ind_out if c in ind_avail])
+            expand = tuple(slice(None) if c in ind_avail else np.newaxis for c in ind_out)
+
+            op = ",".join(ind_in)+"->"+ind_red
             if not np.iscomplexobj(self.sig_in[ar].state) and np.any(arg_complex) and np.iscomplexobj(df_in):
                 da_i = np.zeros_like(self.sig_in[ar].state)+0j
-                einsum(op, df_in, *arg_in, out=da_i, optimize=True)
+                da_i[...] = einsum(op, df_in, *arg_in, optimize=True)[expand]
                 da_i = da_i.real
             else:
                 da_i = np.zeros_like(self.sig_in[ar].state)
-                einsum(op, df_in, *arg_in, out=da_i, optimize=True)
+                da_i[...] = einsum(op, df_in, *arg_in, optimize=True)[expand]
             df_out.append(da_i)
         return df_out
 
